@@ -52,7 +52,72 @@ func runC11(c *runCtx) {
 	for i := 0; i < c.n(60, 1500); i++ {
 		inputs = append(inputs, g.Statement())
 	}
+	// every word the grammar knows in every position of a few statements (valid or not afterwards): a cancellation
+	// seen while standing on any token must surface, whatever production was trying that token
+	{
+		words := parserWords()
+		bases := []string{"INSERT INTO t (a, b) VALUES (1, 2)", "SELECT a FROM t WHERE b = 1 ORDER BY a", "UPDATE t SET a = 1 WHERE b = 2", "SELECT f(a, b) FROM t GROUP BY a",
+			"SELECT a FROM t JOIN u ON t.i = u.i LIMIT 5", "DELETE FROM t WHERE a IN (1, 2)", "CREATE TABLE t (a INT DEFAULT 1)", "SELECT CASE WHEN a THEN 1 ELSE 2 END FROM t"}
+		for bi, b := range bases {
+			pieces := strings.Fields(strings.NewReplacer("(", " ( ", ")", " ) ", ",", " , ").Replace(b))
+			for j := range pieces {
+				for wi, w := range words {
+					if c.quick && (wi+j+bi)%6 != 0 && w != "DEFAULT" && w != "NULL" {
+						continue
+					}
+					mod := append(append(append([]string{}, pieces[:j]...), w), pieces[j+1:]...)
+					inputs = append(inputs, strings.Join(mod, " "))
+				}
+			}
+		}
+	}
 	causes := []error{context.Canceled, context.DeadlineExceeded}
+	// promptness: the context is polled at a density that does not thin out as the input grows (the number of polls grows
+	// at least in proportion to the tokens read / the statements parsed)
+	{
+		polls := func(sql string) (tok, prs int) {
+			tk, _ := tokenizer.New()
+			tc := &pollCtx{Context: context.Background(), k: -1}
+			toks, err := tk.TokenizeContext(tc, []byte(sql))
+			if err != nil {
+				return -1, -1
+			}
+			pc := &pollCtx{Context: context.Background(), k: -1}
+			t, _ := parser.NewParser().ParseContextFromModelTokens(pc, toks)
+			if t != nil {
+				ast.ReleaseAST(t)
+			}
+			return tc.n, pc.n
+		}
+		for _, fam := range []struct {
+			name string
+			mk   func(n int) string
+			unit int // tokens (or statements) per repetition
+		}{
+			{"select-list", func(n int) string { return "SELECT a" + strings.Repeat(", a", n) + " FROM t" }, 2},
+			{"statements", func(n int) string { return strings.Repeat("SELECT a FROM t;\n", n) }, 5},
+			{"and-chain", func(n int) string { return "SELECT a FROM t WHERE a = 1" + strings.Repeat(" AND a = 1", n) }, 4},
+			{"values-rows", func(n int) string { return "INSERT INTO t (a) VALUES (1)" + strings.Repeat(", (1)", n) }, 4},
+		} {
+			for _, n := range []int{300, 1500, 6000} {
+				t1, p1 := polls(fam.mk(n))
+				t2, p2 := polls(fam.mk(4 * n))
+				res.count(fmt.Sprintf("poll-density|%s|%d", fam.name, n), true)
+				if t1 < 0 || t2 < 0 {
+					continue
+				}
+				moreTokens := 3 * n * fam.unit
+				if t2-t1 < moreTokens/400 {
+					res.fail("poll-density:tokenizer", fmt.Sprintf("TokenizeContext polls the context %d times for %d repetitions and %d times for %d: the polls thin out as the input grows", t1, n, t2, 4*n),
+						map[string]any{"family": fam.name, "n": n}, map[string]any{"polls_n": t1, "polls_4n": t2, "additional_tokens": moreTokens})
+				}
+				if fam.name == "statements" && p2-p1 < (3*n)/4 {
+					res.fail("poll-density:parser", fmt.Sprintf("ParseContext polls the context %d times for %d statements and %d times for %d", p1, n, p2, 4*n),
+						map[string]any{"family": fam.name, "n": n}, map[string]any{"polls_n": p1, "polls_4n": p2})
+				}
+			}
+		}
+	}
 	for ii, sql := range inputs {
 		// uncancelled reference
 		ref := &pollCtx{Context: context.Background(), k: -1}
